@@ -57,7 +57,8 @@ def run(ctx):
                 jobs.append((wi, w, key, h, "fo"))     # -f F -o F takes the same path as --replace
             # the same request spelled differently ('./F', './/F', a -F list): the route is chosen by comparing names
             if wi == 0 and (not quick or (key[0] == "fresh" and key[2] in ("unf", "X"))):
-                for alt in (("replace_dot", "replace_dd", "replace_F", "replace_Fdd") if key[1] == "replace" else ("nobackup_dd", "nobackup_F")):
+                for alt in (("replace_dot", "replace_dd", "replace_F", "replace_Fdd", "replace_trk", "fo_trk", "replace_ic_trk", "replace_p") if key[1] == "replace"
+                            else ("nobackup_dd", "nobackup_F", "nobackup_trk", "nobackup_p")):
                     jobs.append((wi, w, key, h, alt))
     traces = []
 
